@@ -179,6 +179,8 @@ def jobs(tier, seed):
     out.append(Job("C12_noop_nested", NOOP + '#include "C12_nested.inc"\n', [dict(name="noop nested call trees", fn=check_nested, unwind=400)]))
     out.append(Job("C12_noop_etls_nested", NOOP_ETLS + '#include "C12_nested.inc"\nRLBOX_NOOP_SANDBOX_STATIC_VARIABLES();\n',
                    [dict(name="noop (embedder TLS) nested call trees", fn=check_nested, unwind=400)], native=False))
+    from specs import C13
+    out.append(Job("C12_noop_recreate", C13.NOOP + '#include "C13_full.inc"\n', [dict(name="noop dispatch in a second incarnation", fn=C13.check_recreate, unwind=400)], native=False))
     fl = ["-D_GLIBCXX_EXTERN_TEMPLATE=0"]
     out.append(Job("C12_dylib_nested", DYLIB + '#include "C12_nested.inc"\n', [dict(name="dylib nested call trees", fn=check_nested, unwind=400)], native=False, flags=fl))
     out.append(Job("C12_dylib_etls_nested", DYLIB_ETLS + '#include "C12_nested.inc"\nRLBOX_DYLIB_SANDBOX_STATIC_VARIABLES();\n',
